@@ -1,5 +1,175 @@
-(* C07 - placeholder while the correspondence check is being brought up; replaced by the real statements. *)
-From LV Require Import Base.Buf Mbuff.MbuffModel.
+(* C07 - mbuff objects are faithful byte-sequence values under any history (src/mbuff.c).
+   Only statements, each closed by `exact`, with Print Assumptions, and non-vacuity Examples.
+   Model and ideal sequence: Mbuff/MbuffModel.v; proofs: Mbuff/MbuffProofs.v. *)
+From LV Require Import Base.Buf Mbuff.MbuffModel Mbuff.MbuffProofs.
 Local Open Scope Z_scope.
-Example C07_ex_boot : run_ctor CNew = Ok (true, mb_null).
-Proof. reflexivity. Qed.
+
+(* Every constructor (empty, from a pointer, from a buffer, from a FILE, from a descriptor; seekable
+   or not; any read schedule) followed by EVERY finite list of operations within the caller
+   contracts (ctor_ok / ops_ok): the model never faults, the constructor's result and every
+   output agree with the ideal byte sequence, the final object holds exactly the ideal bytes,
+   and the invariant (NULL/0/0, or 0 <= len <= size = allocation with cells [0,len) initialised)
+   holds. *)
+Theorem C07_mbuff_refines : forall c ops,
+  ctor_ok c -> ops_ok (snd (spec_ctor c)) ops ->
+  exists xs m,
+    run_model c ops = Ok (fst (spec_ctor c), xs, m) /\
+    Forall2 out_ok xs (fst (spec_run (snd (spec_ctor c)) ops)) /\
+    abs m = snd (spec_run (snd (spec_ctor c)) ops) /\ Inv m.
+Proof. exact refines. Qed.
+Print Assumptions C07_mbuff_refines.
+
+(* no operation reads or writes a byte outside the buffer (nor an uninitialised one, nor NULL) *)
+Theorem C07_mbuff_no_fault : forall c ops,
+  ctor_ok c -> ops_ok (snd (spec_ctor c)) ops -> is_ok (run_model c ops) = true.
+Proof. exact no_fault. Qed.
+Print Assumptions C07_mbuff_no_fault.
+
+(* one operation: the step used by the induction, for any represented object *)
+Theorem C07_mbuff_step : forall m s o,
+  Rep m s -> op_ok s o ->
+  exists x m', step m o = Ok (x, m') /\ out_ok x (fst (spec_step s o)) /\ Rep m' (snd (spec_step s o)).
+Proof. exact step_ok. Qed.
+Print Assumptions C07_mbuff_step.
+
+(* a position outside the sequence is refused and the object is left exactly as it was
+   (same pointer content, len and size, not only the same bytes) *)
+Theorem C07_mbuff_refused_unchanged : forall m s,
+  Rep m s ->
+  (forall idx cnt x, other_ok x -> s_splice s idx cnt (other_bytes x) = None ->
+                     step m (Splice idx cnt x) = Ok (MBool false, m)) /\
+  (forall idx cnt p n, ptr_ok p n -> s_splice s idx cnt (ptr_bytes p n) = None ->
+                       step m (SplicePtr idx cnt p n) = Ok (MBool false, m)) /\
+  (forall idx cnt, s_sub s idx cnt = None -> step m (Subbuff idx cnt) = Ok (MObj None, m)) /\
+  (forall idx cnt, s_sub s idx cnt = None -> step m (SubbuffPtr idx cnt) = Ok (MPtr None, m)) /\
+  (step m (Append None) = Ok (MBool false, m) /\ step m (Prepend None) = Ok (MBool false, m) /\
+   forall n, step m (AppendPtr None n) = Ok (MBool false, m) /\ step m (PrependPtr None n) = Ok (MBool false, m)).
+Proof. exact refused_unchanged. Qed.
+Print Assumptions C07_mbuff_refused_unchanged.
+
+(* ... and every index whose normalised value is outside [0, len) is such a position *)
+Theorem C07_mbuff_outside_is_refused : forall ln idx cnt,
+  norm_idx ln idx < 0 \/ ln <= norm_idx ln idx ->
+  splice_pos ln idx cnt = None /\ sub_pos ln idx cnt = None.
+Proof. exact outside_refused. Qed.
+Print Assumptions C07_mbuff_outside_is_refused.
+
+(* index, rindex, find, find_from_ptr report an absent byte / needle as the length *)
+Theorem C07_mbuff_absent_is_len : forall m s,
+  Rep m s ->
+  (forall c, ~ In c s -> index m c = Ok (len m) /\ rindex m c = Ok (len m)) /\
+  (forall x t, Rep x t -> (forall p q, s <> p ++ t ++ q) -> find m (Some x) = Ok (len m)) /\
+  (forall (q : list Z) n, 0 <= n <= zlen q -> (forall p r, s <> p ++ take n q ++ r) ->
+                          find_from_ptr m (pbuf (Some q)) n = Ok (len m)).
+Proof. exact model_absent_is_len. Qed.
+Print Assumptions C07_mbuff_absent_is_len.
+
+(* ... and a present one as its first (index, find) / last (rindex) position *)
+Theorem C07_mbuff_present_position : forall s c,
+  In c s ->
+  (exists pre post, s = pre ++ c :: post /\ ~ In c pre /\ s_index s c = zlen pre) /\
+  (exists pre post, s = pre ++ c :: post /\ ~ In c post /\ s_rindex s c = zlen pre).
+Proof. exact index_present. Qed.
+Print Assumptions C07_mbuff_present_position.
+
+Theorem C07_mbuff_find_first : forall s n p q,
+  s = p ++ n ++ q ->
+  exists pre post, s = pre ++ n ++ post /\ s_find s n = zlen pre /\ zlen pre <= zlen p.
+Proof. exact find_present. Qed.
+Print Assumptions C07_mbuff_find_first.
+
+(* the comparison of the ideal sequences is a total order in which a proper prefix is strictly
+   smaller (buffers with an equal common prefix and different lengths are never EQUAL) ... *)
+Theorem C07_mbuff_cmp_total_order :
+  (forall a, lex a a = 0) /\
+  (forall a b, lex b a = - lex a b) /\
+  (forall a b c, lex a b <= 0 -> lex b c <= 0 -> lex a c <= 0) /\
+  (forall a b, lex a b = 0 <-> a = b) /\
+  (forall a b, lex a b = -1 \/ lex a b = 0 \/ lex a b = 1) /\
+  (forall a x t, lex a (a ++ x :: t) = -1 /\ lex (a ++ x :: t) a = 1).
+Proof. exact (conj lex_refl (conj lex_antisym (conj lex_trans (conj lex_eq (conj lex_range lex_prefix))))). Qed.
+Print Assumptions C07_mbuff_cmp_total_order.
+
+(* ... and spif_mbuff_cmp / ncmp / cmp_with_ptr compute it (this is what C05 reuses) *)
+Theorem C07_mbuff_cmp_is_lex : forall m s x t, Rep m s -> Rep x t -> cmp m (Some x) = Ok (lex s t).
+Proof. exact cmp_core. Qed.
+Print Assumptions C07_mbuff_cmp_is_lex.
+
+Theorem C07_mbuff_ncmp_is_lex : forall m s o n,
+  Rep m s -> other_ok o ->
+  ncmp m o n = Ok (match o with None => 1 | Some x => s_ncmp s (abs x) n end).
+Proof. exact ncmp_ok. Qed.
+Print Assumptions C07_mbuff_ncmp_is_lex.
+
+Theorem C07_mbuff_cmp_with_ptr_is_lex : forall m s (p : ptr) n,
+  Rep m s -> (forall q, p = Some q -> 0 <= n <= zlen q /\ n <= zlen s) ->
+  cmp_with_ptr m (pbuf p) n = Ok (match p with None => 1 | Some q => lex (take n s) (take n q) end).
+Proof. exact cmp_with_ptr_ok. Qed.
+Print Assumptions C07_mbuff_cmp_with_ptr_is_lex.
+
+(* an object without spare cells: a count above its length (the caller's block being that long) is
+   answered as the ideal sequence would - the object is the shorter operand - and nothing outside
+   the allocation is read *)
+Theorem C07_mbuff_cmp_with_ptr_exact_size : forall m s (q : list Z) n,
+  Rep m s -> size m = zlen s -> zlen s < n <= zlen q ->
+  cmp_with_ptr m (pbuf (Some q)) n = Ok (lex (take n s) (take n q)).
+Proof. exact cmp_with_ptr_exact. Qed.
+Print Assumptions C07_mbuff_cmp_with_ptr_exact_size.
+
+(* readers, all lengths, both paths: the object holds every byte delivered before the first end
+   of file or error (descriptor reader: interrupted reads retried; stdio gives up on them); a
+   regular file read from offset |pre| yields exactly the remaining bytes *)
+Theorem C07_mbuff_stream_chunks :
+  (forall s, exists m, run_ctor (CFd Stream s) = Ok (true, m) /\ Rep m (stream_bytes true s)) /\
+  (forall s, exists m, run_ctor (CFp Stream s) = Ok (true, m) /\ Rep m (stream_bytes false s)) /\
+  (forall pre data, data <> [] ->
+     exists m, run_ctor (CFd (Seekable (zlen pre) (zlen (pre ++ data))) [Data data]) = Ok (true, m) /\ Rep m data) /\
+  (forall pre data, data <> [] ->
+     exists m, run_ctor (CFp (Seekable (zlen pre) (zlen (pre ++ data))) [Data data]) = Ok (true, m) /\ Rep m data).
+Proof. exact stream_chunks. Qed.
+Print Assumptions C07_mbuff_stream_chunks.
+
+(* stream_bytes of a schedule made of non-empty chunks is their concatenation *)
+Theorem C07_mbuff_stream_bytes_concat : forall r chunks tail,
+  Forall (fun c => c <> []) chunks ->
+  stream_bytes r (map Data chunks ++ EOF :: tail) = concat chunks /\
+  stream_bytes r (map Short chunks ++ Err :: tail) = concat chunks /\
+  stream_bytes r (map Data chunks) = concat chunks.
+Proof. exact stream_bytes_chunks. Qed.
+Print Assumptions C07_mbuff_stream_bytes_concat.
+
+(* every constructor alone, including the seekable paths with an arbitrary schedule *)
+Theorem C07_mbuff_ctor : forall c,
+  ctor_ok c -> exists m, run_ctor c = Ok (fst (spec_ctor c), m) /\ Rep m (snd (spec_ctor c)).
+Proof. exact run_ctor_ok. Qed.
+Print Assumptions C07_mbuff_ctor.
+
+(* ---- non-vacuity: the hypotheses are met by concrete histories, and the model runs ---- *)
+Definition ex_other : mb := MB (Some [Some 88; Some 0; None]) 2 3.
+Example C07_ex_other_inv : Inv ex_other.
+Proof. exists [88; 0]. right. exists [None]. repeat split. Qed.
+
+Definition ex_ops : list op :=
+  [Append (Some ex_other); PrependPtr (Some [32; 9]) 2; Splice (-2) 1 (Some ex_other); Index 255; Rindex 0;
+   Cmp (Some ex_other); Trim; Reverse; Subbuff 1 0; Find None; Sprintf (FOut [65; 0; 66]); Done].
+Example C07_ex_hyps : ctor_ok (CFd Stream [Short [97; 0]; EINTR; Data [98]; EOF; Data [99]]) /\
+                      ops_ok (snd (spec_ctor (CFd Stream [Short [97; 0]; EINTR; Data [98]; EOF; Data [99]]))) ex_ops.
+Proof.
+  split; [exact I|]. cbn. unfold other_ok, ptr_ok.
+  repeat split; try exact I; try lia;
+    try (match goal with H : Some _ = Some _ |- _ => inversion H; subst; cbn; lia end);
+    intros x Hx; inversion Hx; subst; exact C07_ex_other_inv.
+Qed.
+Example C07_ex_run :
+  option_map (fun r => (fst (fst r), abs (snd r)))
+    (match run_model (CFd Stream [Short [97; 0]; EINTR; Data [98]; EOF; Data [99]])
+                     [Append (Some ex_other); PrependPtr (Some [32; 9]) 2; Splice (-2) 1 (Some ex_other); Trim; Reverse]
+     with Ok r => Some r | Fault _ => None end)
+  = Some (true, [0; 0; 88; 98; 0; 97]).
+Proof. vm_compute. reflexivity. Qed.
+Example C07_ex_prefix_not_equal :
+  cmp (MB (Some [Some 97; Some 98]) 2 2) (Some (MB (Some [Some 97; Some 98; Some 99]) 3 3)) = Ok (-1).
+Proof. vm_compute. reflexivity. Qed.
+Example C07_ex_refused :
+  step (MB (Some [Some 97; Some 98]) 2 2) (Splice 2 0 (Some ex_other)) = Ok (MBool false, MB (Some [Some 97; Some 98]) 2 2).
+Proof. vm_compute. reflexivity. Qed.
